@@ -44,6 +44,11 @@ impl Ctx {
     }
 }
 
+/// cap on recorded violations per sub-check (VERIF_MAXVIOL, default 3; raise for triage)
+pub fn max_viol() -> usize {
+    std::env::var("VERIF_MAXVIOL").ok().and_then(|s| s.parse().ok()).unwrap_or(3)
+}
+
 pub fn mix(seed: u64, parts: &[&str]) -> u64 {
     // FNV-1a then splitmix finaliser
     let mut h: u64 = 0xcbf29ce484222325 ^ seed.wrapping_mul(0x9E3779B97F4A7C15);
@@ -373,7 +378,7 @@ pub fn run_prop<C, S>(
         merged.merge(l);
         if let Some((msg, case)) = v {
             // keep at most 3 violations per subcheck (distinct seeds usually find the same root cause)
-            if rep.violations.iter().filter(|x| x.subcheck == sub).count() < 3 {
+            if rep.violations.iter().filter(|x| x.subcheck == sub).count() < max_viol() {
                 rep.violation(sub, msg, case);
             }
         }
@@ -458,7 +463,7 @@ pub fn run_prop_jobs<J, C, S>(
     for (l, v) in results {
         merged.merge(l);
         if let Some((msg, case)) = v {
-            if rep.violations.iter().filter(|x| x.subcheck == sub).count() < 12 {
+            if rep.violations.iter().filter(|x| x.subcheck == sub).count() < max_viol().max(12) {
                 rep.violation(sub, msg, case);
             }
         }
@@ -488,7 +493,7 @@ pub fn run_enum(
     for (l, vs) in results {
         merged.merge(l);
         for (msg, case) in vs {
-            if rep.violations.iter().filter(|x| x.subcheck == sub).count() < 3 {
+            if rep.violations.iter().filter(|x| x.subcheck == sub).count() < max_viol() {
                 rep.violation(sub, msg, case);
             }
         }
